@@ -354,3 +354,128 @@ pub async fn c06_stream_cuts(addr: SocketAddr, certs: &Certs) -> std::result::Re
     echo.abort();
     Ok((cuts, findings))
 }
+
+/// C10 when the very first registrations on a topic race: the first replier advertises an 8-byte stream window and
+/// does not read, so the server's 9-byte `Ok` to it stalls while a second replier and a requestor register and
+/// talk. Whatever the outcome of the race, at most one replier may ever receive the topic's requests, the other one
+/// must be told replier-already-bound and closed, and the served one's traffic must not be disturbed.
+pub async fn c10_first_registrations_race(addr: SocketAddr, certs: &Certs, id: u64) -> std::result::Result<Findings, String> {
+    let w = Duration::from_secs(10);
+    let topic = format!("/l3c10w{}/first-come", id);
+    let mut findings = vec![];
+    let slow_cfg = raw_client_config_window(&read_der(&certs.client_ca()).map_err(|e| e.to_string())?, ClientIdentity::Cert(read_der(&certs.client_cert()).map_err(|e| e.to_string())?, read_der(&certs.client_key()).map_err(|e| e.to_string())?), Some(8)).map_err(|e| e.to_string())?;
+    let c1 = raw_connect_with(addr, slow_cfg).await.map_err(|e| e.to_string())?;
+    let c2 = raw_connect(addr, certs).await.map_err(|e| e.to_string())?;
+    let c3 = raw_connect(addr, certs).await.map_err(|e| e.to_string())?;
+    // R1: registers, does not read
+    let mut r1 = WireStream::open(&c1.conn).await.map_err(|e| e.to_string())?;
+    r1.write(&enc_register(T_REG_REP, &topic)).await?;
+    tokio::time::sleep(Duration::from_millis(150)).await;
+    // R2 registers and serves
+    let mut r2 = WireStream::open(&c2.conn).await.map_err(|e| e.to_string())?;
+    r2.write(&enc_register(T_REG_REP, &topic)).await?;
+    let r2_first = r2.next(Duration::from_secs(3)).await;
+    if r2_first != Next::Frame(WFrame::Ok) {
+        return Err(format!("precondition not reached: the second replier's registration was answered {:?}", r2_first));
+    }
+    let mut q1 = WireStream::register(&c3.conn, T_REG_REQ, &topic, w).await?;
+    let hdr = |n: u32| vec![("req_id".to_string(), n.to_string())];
+    // R2's view: requests received so far
+    let mut r2_got: Vec<Vec<u8>> = vec![];
+    let mut r2_state = "open".to_string();
+    let mut r1_got: Vec<Vec<u8>> = vec![];
+    // Q1's first request; R2 (if bound) answers
+    q1.write(&enc_message(Some(&hdr(0)), b"q1-first")).await?;
+    let mut pump_r2 = |r2: &mut WireStream, r2_got: &mut Vec<Vec<u8>>| {
+        let _ = (r2, r2_got);
+    };
+    let _ = &mut pump_r2;
+    async fn serve(r: &mut WireStream, got: &mut Vec<Vec<u8>>, state: &mut String, wait: Duration) {
+        loop {
+            match r.next(wait).await {
+                Next::Frame(WFrame::Message { headers, body }) => {
+                    got.push(body.clone());
+                    let mut b = b"re:".to_vec();
+                    b.extend_from_slice(&body);
+                    let _ = r.write(&enc_message(headers.as_deref(), &b)).await;
+                }
+                Next::Frame(WFrame::Error { code, .. }) => *state = format!("error code {}", code),
+                Next::Frame(WFrame::Ok) => {}
+                Next::Frame(_) => {}
+                Next::Timeout => return,
+                Next::Eof => {
+                    state.push_str(" then closed");
+                    return;
+                }
+                Next::Reset(e) => {
+                    state.push_str(&format!(" then reset ({})", e));
+                    return;
+                }
+                Next::Garbage(e) => {
+                    *state = format!("garbage: {}", e);
+                    return;
+                }
+            }
+        }
+    }
+    serve(&mut r2, &mut r2_got, &mut r2_state, Duration::from_millis(400)).await;
+    let q1_first = q1.next(Duration::from_millis(600)).await;
+    // R1 starts reading now: its Ok arrives, then whatever the router decided
+    let mut r1_state = "open".to_string();
+    serve(&mut r1, &mut r1_got, &mut r1_state, Duration::from_millis(600)).await;
+    // a late requestor and another request of the first one
+    let mut q2 = WireStream::register(&c3.conn, T_REG_REQ, &topic, w).await?;
+    q2.write(&enc_message(Some(&hdr(0)), b"q2-first")).await?;
+    let q1w = q1.write(&enc_message(Some(&hdr(1)), b"q1-second")).await;
+    for _ in 0..3 {
+        serve(&mut r2, &mut r2_got, &mut r2_state, Duration::from_millis(250)).await;
+        serve(&mut r1, &mut r1_got, &mut r1_state, Duration::from_millis(250)).await;
+    }
+    let q2_first = q2.next(Duration::from_millis(800)).await;
+    let q1_second = q1.next(Duration::from_millis(800)).await;
+    let show = |v: &Vec<Vec<u8>>| v.iter().map(|b| String::from_utf8_lossy(b).to_string()).collect::<Vec<_>>();
+    let history = format!(
+        "R1 (registered first, 8-byte window, started reading late): {} , received {:?}; R2: {}, received {:?}; Q1 first reply {:?}, second write {:?}, second reply {:?}; Q2 reply {:?}",
+        r1_state,
+        show(&r1_got),
+        r2_state,
+        show(&r2_got),
+        brief_next(&q1_first),
+        q1w,
+        brief_next(&q1_second),
+        brief_next(&q2_first)
+    );
+    if !r1_got.is_empty() && !r2_got.is_empty() {
+        findings.push(("two-repliers-served/first-registrations-race".to_string(), format!("both repliers received requests of the topic, neither had left — {}", history)));
+    }
+    let rejected = |st: &str| st.starts_with("error code 5") && (st.contains("closed") || st.contains("reset"));
+    match (r1_got.is_empty(), r2_got.is_empty()) {
+        (true, false) => {
+            if !rejected(&r1_state) {
+                findings.push(("rejected-replier-not-told/first-registrations-race".into(), format!("R2 is the served replier, so R1 must receive replier-already-bound and be closed — {}", history)));
+            }
+            if r2_state != "open" {
+                findings.push(("bound-replier-disturbed/first-registrations-race".into(), format!("the served replier's stream did not stay open — {}", history)));
+            }
+        }
+        (false, true) => {
+            if !rejected(&r2_state) {
+                findings.push(("rejected-replier-not-told/first-registrations-race".into(), format!("R1 is the served replier, so R2 must receive replier-already-bound and be closed — {}", history)));
+            }
+        }
+        (true, true) => findings.push(("no-replier-served/first-registrations-race".into(), format!("two repliers registered and none left, yet no request reached either — {}", history))),
+        _ => {}
+    }
+    let total = r1_got.len() + r2_got.len();
+    if total < 3 && (r1_got.is_empty() != r2_got.is_empty()) {
+        findings.push(("requests-lost/first-registrations-race".into(), format!("3 requests were sent while a replier was bound, {} arrived — {}", total, history)));
+    }
+    Ok(findings)
+}
+
+fn brief_next(n: &Next) -> String {
+    match n {
+        Next::Frame(WFrame::Message { body, .. }) => format!("Message({})", String::from_utf8_lossy(&body[..body.len().min(24)])),
+        other => format!("{:?}", other),
+    }
+}
